@@ -453,4 +453,20 @@ theorem allowIP_regenerated_from_source (o : Oracle) (f : Option Nat) (ip : Stri
     Gen.FactsMuxIR.extractionFailed = false ∧ Gen.FactsMuxIR.allowIPIR o f ip = some (allowIP o f ip) :=
   ⟨by decide, MuxCache.allowIP_regenerated_from_source o f ip⟩
 
+/-- **`Path.Validate`** (audit repair): the hypothesis `PathValid` of `rewrite_total` / `serve_satisfies_spec`
+was a hand transcription of `spec.go`; the body of `Path.Validate` is now re-translated on every run and
+`PathValid e` is exactly "`Validate` returns no error" (`PathRegexp` non-empty ⇔ `pathRE` compiled). -/
+theorem pathValidate_regenerated_from_source (e : PathEntry) :
+    Gen.FactsC01IR.extractionFailed = false ∧ (Gen.FactsC01IR.pathValidateIR e = false ↔ PathValid e) := by
+  refine ⟨by decide, ?_⟩
+  unfold Gen.FactsC01IR.pathValidateIR Gen.FactsC01IR.reSrc PathValid
+  cases h : e.pathRE <;> by_cases h1 : e.path = "" <;> by_cases h2 : e.pathPrefix = "" <;>
+    by_cases h3 : e.rewriteTarget = "" <;> simp [h1, h2, h3]
+
+/-- non-vacuity of the X-Forwarded-For theorems: with `spec.XForwardedFor` the handler sees the appended
+header; a second append of the same address changes nothing -/
+example : serve oEx2 (fun _ p _ => p) cEx true ["b4"] { qEx with hdr := [("X-A", "2"), ("X-Forwarded-For", "9.9.9.9")] }
+    = .handled "b4" "/r" "a:80" "9.9.9.9,1.2.3.4" := by decide
+example : xffAfter "9.9.9.9" "1.2.3.4" ≠ "" ∧ xffAfter (xffAfter "9.9.9.9" "1.2.3.4") "1.2.3.4" = "9.9.9.9,1.2.3.4" := by decide
+
 end EgVerif.C01
